@@ -99,8 +99,10 @@ pub(crate) mod o_esc {
 // ---------------------------------------------------------------- O-pos
 #[allow(dead_code)]
 pub(crate) mod o_pos {
-    /// (line, column) of byte `index` in valid UTF-8 `input`; column counts scalar values;
-    /// an index at or past the end is clamped to the last byte and the excess added.
+    /// (line, column) of byte `index` in valid UTF-8 `input`: line = number of LF before the
+    /// position, column = number of characters between the line start and the character that
+    /// contains the position; an index at or past the end is clamped to the last byte and the
+    /// excess added (so end of input points one past the last character of the last line).
     pub(crate) fn line_col(input: &[u8], index: usize) -> (usize, usize) {
         if input.is_empty() { return (0, index); }
         let safe = if index < input.len() { index } else { input.len() - 1 };
@@ -112,13 +114,100 @@ pub(crate) mod o_pos {
             if input[i] == b'\n' { line += 1; line_start = i + 1; }
             i += 1;
         }
-        // scalar values in input[line_start..safe] = bytes that are not continuation bytes
-        let mut col = 0usize;
+        // characters before the one that contains byte `safe`: scalar values that START in
+        // input[line_start..=safe] (bytes that are not continuation bytes), minus that one
+        let mut starts = 0usize;
         let mut j = line_start;
-        while j < safe {
-            if input[j] & 0xC0 != 0x80 { col += 1; }
+        while j <= safe {
+            if input[j] & 0xC0 != 0x80 { starts += 1; }
             j += 1;
         }
+        let col = if starts > 0 { starts - 1 } else { 0 };
         (line, col + excess)
+    }
+}
+
+// ---------------------------------------------------------------- O-dt
+// spec_datetime: the four date-time shapes of the TOML 1.0.0 ABNF / RFC 3339 over bytes.
+#[allow(dead_code)]
+pub(crate) mod o_dt {
+    use super::o_class;
+    use super::o_date;
+
+    #[derive(Clone, Copy, PartialEq, Eq, Debug)]
+    pub(crate) struct DtSpec {
+        pub(crate) date: Option<(u16, u8, u8)>,
+        pub(crate) time: Option<(u8, u8, u8, u32)>,
+        /// None: no offset; Some(None): Z; Some(Some(m)): numeric offset in minutes
+        pub(crate) offset: Option<Option<i16>>,
+    }
+
+    /// full-date = date-fullyear "-" date-month "-" date-mday
+    pub(crate) fn parse_date(s: &[u8], i: usize) -> Option<((u16, u8, u8), usize)> {
+        if s.len() < i + 10 { return None; }
+        let y = o_date::four(s[i], s[i + 1], s[i + 2], s[i + 3])?;
+        if s[i + 4] != b'-' { return None; }
+        let m = o_date::two(s[i + 5], s[i + 6])?;
+        if s[i + 7] != b'-' { return None; }
+        let d = o_date::two(s[i + 8], s[i + 9])?;
+        if !o_date::valid_date(y, m, d) { return None; }
+        Some(((y, m, d), i + 10))
+    }
+
+    /// partial-time = time-hour ":" time-minute ":" time-second [ "." 1*DIGIT ]
+    pub(crate) fn parse_time(s: &[u8], i: usize) -> Option<((u8, u8, u8, u32), usize)> {
+        if s.len() < i + 8 { return None; }
+        let h = o_date::two(s[i], s[i + 1])?;
+        if s[i + 2] != b':' { return None; }
+        let mi = o_date::two(s[i + 3], s[i + 4])?;
+        if s[i + 5] != b':' { return None; }
+        let sec = o_date::two(s[i + 6], s[i + 7])?;
+        if !o_date::valid_time(h, mi, sec) { return None; }
+        let mut j = i + 8;
+        let mut ns = 0u32;
+        if j < s.len() && s[j] == b'.' {
+            let start = j + 1;
+            let mut k = start;
+            while k < s.len() && o_class::digit(s[k]) { k += 1; }
+            if k == start { return None; }
+            ns = o_date::secfrac(&s[start..k])?;
+            j = k;
+        }
+        Some(((h, mi, sec, ns), j))
+    }
+
+    /// time-offset = "Z" / ( "+" / "-" ) time-hour ":" time-minute
+    pub(crate) fn parse_offset(s: &[u8], i: usize) -> Option<(Option<i16>, usize)> {
+        if i >= s.len() { return None; }
+        if s[i] == b'Z' || s[i] == b'z' { return Some((None, i + 1)); }
+        let sign: i16 = if s[i] == b'+' { 1 } else if s[i] == b'-' { -1 } else { return None; };
+        if s.len() < i + 6 { return None; }
+        let h = o_date::two(s[i + 1], s[i + 2])?;
+        if s[i + 3] != b':' { return None; }
+        let m = o_date::two(s[i + 4], s[i + 5])?;
+        if !o_date::valid_offset(h, m) { return None; }
+        Some((Some(sign * (h as i16 * 60 + m as i16)), i + 6))
+    }
+
+    pub(crate) fn spec_datetime(s: &[u8]) -> Option<DtSpec> {
+        if let Some((d, i)) = parse_date(s, 0) {
+            if i == s.len() {
+                return Some(DtSpec { date: Some(d), time: None, offset: None });
+            }
+            if !o_class::time_delim(s[i]) { return None; }
+            let (t, j) = parse_time(s, i + 1)?;
+            if j == s.len() {
+                return Some(DtSpec { date: Some(d), time: Some(t), offset: None });
+            }
+            let (o, k) = parse_offset(s, j)?;
+            if k == s.len() {
+                return Some(DtSpec { date: Some(d), time: Some(t), offset: Some(o) });
+            }
+            None
+        } else if let Some((t, j)) = parse_time(s, 0) {
+            if j == s.len() { Some(DtSpec { date: None, time: Some(t), offset: None }) } else { None }
+        } else {
+            None
+        }
     }
 }
